@@ -1,6 +1,7 @@
 """C06 — tzfile reports exactly what the TZif data says at every instant."""
 import io, os, pickle, warnings
 import basecorr, zonelib as Z
+from vlib import DriverError as vlib_DriverError
 
 PROP = "C06"
 TRUSTED = [
@@ -16,7 +17,7 @@ ASSUMPTIONS = [
     "load paths (gettz by name, path, open stream, ZoneInfoFile archive with link entries, pickle) are I/O glue: compared for equality and identical answers, not modelled",
 ]
 RULE = ("zones = distinct TZif files of /usr/share/zoneinfo (quick: 60 incl. a fixed list of unusual zones; thorough: all 447 "
-        "plus the right/ leap-second variants for the decoder) + 28 named synthetic shapes + seeded random tables + malformed streams; "
+        "plus the right/ leap-second variants for the decoder) + 37 named synthetic shapes (incl. abbreviation tables of 132..256 bytes, zic-style suffix sharing, and 129 / 200 / 256 types with type, flag and abbreviation indices >= 128) + seeded random tables + malformed streams; "
         "instants = every transition ± {0, 1 s, 30 min, 1 h, 2 h, Δ, Δ±1}; a case = (stream, instant); non-trivial = first ≤ t < last "
         "transition on a WF table (t < first counts for before_first)")
 
@@ -49,7 +50,11 @@ def correspondence(ctx):
         reqs.append("tzfile.fromutc %s %s" % (hx, Z.ilist(ups)))
         exp.append("ok " + " ".join(Z.impl_fromutc_line(z, t) for t in ups)); meta.append((name, "fromutc", ups))
         # the encoder of the spec: re-encode what the model decoded; the implementation must read it as the same zone
-        reqs.append("tzfile.reenc " + hx); exp.append(None); meta.append((name, "reenc", (z, line)))
+        # (only inside the canonical encoder's image: one private abbreviation per type must fit 256 bytes, RawWF)
+        if sum(len(t.abbr) + 1 for t in z._ttinfo_list) <= 256:
+            reqs.append("tzfile.reenc " + hx); exp.append(None); meta.append((name, "reenc", (z, line)))
+        else:
+            ctx.count("reenc_skipped_outside_encoder_image")
     got = ctx.driver(reqs)
     for q, e, g, (name, kind, pts) in zip(reqs, exp, got, meta):
         ctx.traces += 1
@@ -185,9 +190,16 @@ def oracle(ctx):
         check_zone(ctx, name, data, z, line, ups, tl)
     glue(ctx, real if ctx.tier == "thorough" or ctx.escalated else real[:25])
     ctx.count("zones_real", len(real)); ctx.count("streams_synthetic", len(syn))
-    name, data, z, ups, tl = todo[0]
-    for t in ups[:3]:
-        ctx.sample({"zone": name, "t": t, "impl": Z.impl_fromutc_line(z, t), "data": tl.type_at(t)})
+    # guard against a vacuous pass (tzdata built `-b slim` has empty version-1 blocks)
+    real_names = {r[0] for r in real}
+    real_in_range = sum(max(0, len(tl.utc) - 1) for name, _, _, _, tl in todo if name in real_names)
+    ctx.hist["real_transition_intervals"] = real_in_range
+    if real_in_range == 0:
+        raise vlib_DriverError("the system tz database has no version-1 transitions (slim TZif?): C06 would pass vacuously")
+    for name, data, z, ups, tl in todo[:2] + [x for x in todo if x[0].startswith("syn:abbr_table_200")][:1]:
+        mid = [t for t in ups if tl.utc and tl.utc[0] <= t < tl.utc[-1]]
+        for t in mid[len(mid) // 2: len(mid) // 2 + 2]:
+            ctx.sample({"zone": name, "t": t, "impl": Z.impl_fromutc_line(z, t), "data": tl.type_at(t)})
 
 
 KNOWN = {}
